@@ -53,6 +53,12 @@ CLAIMED["C20"] = dict(
    text="Generated histories of push_theme/pop_theme/nested use_theme blocks (normal and exceptional exit) are executed on a real Console and on a reference stack; after every step all pool names, style definitions and unparseable names are looked up and compared, popping the base must raise and change nothing; Theme.config is read back with from_file for generated themes.",
    note="Names follow the documented grammar; DEFAULT_STYLES is the reference for built-in names; use_theme bodies are kept balanced so that each block's pop matches its own push.",
    ref="5 C20")
+CLAIMED["C16"] = dict(
+   technique="Hypothesis property test: eval() round trip with structural equality, differential against repr() and against an independent single-line reference printer, line-discipline predicates",
+   level="exploration",
+   text="Generated values nested to depth 6 over all listed container and leaf types are printed at generated widths/indent sizes/expand_all and evaluated back (same types at every level); for built-in containers the output must equal repr() whenever that fits; expanded output must indent one level at a time and no over-wide line may hold a collapsed non-empty container; abbreviation markers and cyclic values are compared with a reference printer.",
+   note="Finite floats; defaultdict factory reprs rewritten for eval as for Python's own repr; deque maxlen is not part of equality.",
+   ref="5 C16")
 NOT_YET = {}
 props = [json.loads(l) for l in open(os.path.join(V, "properties.jsonl"))]
 checks = []
